@@ -329,3 +329,65 @@ Proof.
   - destruct (valid_upto ccmd bto L_FULL); inversion H; subst. exact M1.
   - destruct (negb (is_failed ccmd bto)); [discriminate|]. destruct (negb _); inversion H; subst. exact M1.
 Qed.
+
+(** ** comparePopScore *)
+Lemma md_tip : forall T s s4 t n, md T s s4 -> md T s (mkSt pstate ccmd (blocks _ _ s4) (root _ _ s4) t n (pst _ _ s4)).
+Proof. intros T s s4 t n H. exact H. Qed.
+
+Lemma md_compare_fork : forall sc cr s c bc bt s' r,
+    quiet s -> scoh s -> tf s ->
+    compare_fork pstate ccmd cexec cunexec sc cr s c bc bt = Ok (s', r) -> md (branch s c) s s'.
+Proof.
+  intros sc cr s c bc bt s' r Q C T H. pose proof Q as (W & _). assert (WI : winv s) by (split; assumption).
+  pose proof (chain_lvl s Q C T) as CL.
+  unfold compare_fork in H.
+  destruct (lca ccmd (blocks pstate ccmd s) _ (tip pstate ccmd s) c) as [fork|]; [|discriminate].
+  destruct (bfind (blocks pstate ccmd s) fork) as [bf|]; [|discriminate].
+  destruct (negb (cr _ _) && negb (cr _ _)); [inversion H; subst; apply md_refl|].
+  dbind H. destruct a as [s1 ok1]. destruct (md_apply_range _ _ _ _ _ WI E) as [M1 _].
+  pose proof (winv_apply_range _ _ _ _ _ WI E) as WI1.
+  destruct ok1; cbn [negb] in H; [|inversion H; subst; exact M1].
+  destruct (Z.leb 0 (sc s1 c)).
+  - dbind H. inversion H; subst. eapply md_trans; [exact M1|]. eapply md_weaken; [|exact (md_unapply_range _ _ _ _ E0)]. intros j [].
+  - dbind H. destruct a as [s2 vf]. pose proof (md_uw _ _ _ _ _ _ _ E0) as M2. pose proof (winv_uw _ _ _ _ _ _ _ WI1 E0) as WI2.
+    dbind H. rename a into s3. pose proof (md_unapply_range _ _ _ _ E1) as M3. pose proof (winv_unapply_range _ _ _ _ WI2 E1) as WI3.
+    assert (M13 : md (branch s c) s s3).
+    { eapply md_trans; [exact M1|]. eapply md_trans; eapply md_weaken; try eassumption; intros j []. }
+    dbind H. destruct a as [s4 ok2]. destruct (md_apply_range _ _ _ _ _ WI3 E2) as [M4 _].
+    pose proof (winv_apply_range _ _ _ _ _ WI3 E2) as WI4.
+    assert (M14 : md (branch s c) s s4).
+    { eapply md_trans; [exact M13|]. eapply md_weaken; [|exact M4]. intros j Hj. eapply branch_static; [exact (md_static _ _ _ M13)|exact Hj]. }
+    destruct ok2; [inversion H; subst; apply md_tip; exact M14|].
+    dbind H. rename a into s5. pose proof (md_unapply_range _ _ _ _ E3) as M5. pose proof (winv_unapply_range _ _ _ _ WI4 E3) as WI5.
+    dbind H. destruct a as [s6 ok3]. destruct ok3; inversion H; subst; clear H.
+    destruct (md_apply_range _ _ _ _ _ WI5 E4) as [_ M6].
+    assert (M15 : md (branch s c) s s5) by (eapply md_trans; [exact M14|]; eapply md_weaken; [|exact M5]; intros j []).
+    eapply md_trans; [exact M15|]. eapply md_weaken; [|apply M6; [reflexivity|]]; [intros j []|].
+    intros k. rewrite (up_static _ _ k (tip pstate ccmd s) (md_static _ _ _ M15)).
+    eapply lvl_ge_unapply_range; [|exact E3]. eapply lvl_ge_apply_range; [|exact E2]. eapply lvl_ge_unapply_range; [|exact E1].
+    eapply lvl_ge_uw; [|exact E0]. eapply lvl_ge_apply_range; [|exact E]. apply CL.
+Qed.
+
+Theorem md_compare : forall sc cr s c s' r,
+    quiet s -> scoh s -> tf s -> c_compare sc cr s (Some c) = Ok (s', r) -> md (branch s c) s s'.
+Proof.
+  intros sc cr s c s' r Q C T H. pose proof Q as (W & _). unfold c_compare, compare in H.
+  destruct (bfind (blocks pstate ccmd s) c) as [bc|]; [|discriminate].
+  destruct (bfind (blocks pstate ccmd s) (tip pstate ccmd s)) as [bt|]; [|discriminate].
+  destruct (is_failed ccmd bc); [inversion H; subst; apply md_refl|].
+  destruct (N.eqb (tip pstate ccmd s) c); [inversion H; subst; apply md_refl|].
+  destruct (on_active_chain pstate ccmd s c); [inversion H; subst; apply md_refl|].
+  destruct (anc_at ccmd (blocks pstate ccmd s) _ c (b_h ccmd bt)) as [a|]; [|eapply md_compare_fork; eassumption].
+  destruct (N.eqb a (tip pstate ccmd s)); [|eapply md_compare_fork; eassumption].
+  dbind H. destruct a0 as [s1 ok]. destruct (md_apply_range _ _ _ _ _ (conj W C) E) as [M1 _].
+  destruct ok; inversion H; subst; [apply md_tip|]; exact M1.
+Qed.
+
+(** ** C02: the marks clause over reachable states *)
+Theorem setState_marks : forall base s to s' ok,
+    reachable base s -> c_setState s to = Ok (s', ok) -> md (branch s to) s s'.
+Proof. intros base s to s' ok R H. destruct (reachable_good _ _ R) as (Q & _ & K & T & _). eapply md_setState; eassumption. Qed.
+
+Theorem compare_marks : forall base sc cr s c s' r,
+    reachable base s -> c_compare sc cr s (Some c) = Ok (s', r) -> md (branch s c) s s'.
+Proof. intros base sc cr s c s' r R H. destruct (reachable_good _ _ R) as (Q & _ & K & T & _). eapply md_compare; eassumption. Qed.
